@@ -209,6 +209,7 @@ def handle (st : St) (line : String) : St × String :=
     | some ob, some l4, some v6 =>
       (st, s!"key={ob % 256 * 6 + (if l4 = IPPROTO_UDP then 2 else 0) * 2 + (if v6 = 0 then 0 else 1)}")
     | _, _, _ => (st, "bad-op")
+  | "note" :: _ => (st, "-")
   | ["const", name] =>
     match constTable.lookup name with
     | some v => (st, s!"={v}")
